@@ -51,7 +51,8 @@ func VerifDistribute() {
 			rt.Assume(id != o)
 		}
 		rt.Assume(key != wk)
-		logs = append(logs, config.Log{ID: id, Origin: origin, Verifier: &rt.Verifier{K: key, N: origin}})
+		// the key's name is its own: several logs may share a key or a key name
+		logs = append(logs, config.Log{ID: id, Origin: origin, Verifier: &rt.Verifier{K: key, N: rt.Str("keyname")}})
 		keys = append(keys, key)
 		stub.ids = append(stub.ids, id)
 		if rt.Bool("witness.has") {
